@@ -9,3 +9,5 @@ open SSVerif.Lattice
 #print axioms C12_int_bestpath_posterior_dec
 #print axioms C12_int_tables_eq
 #print axioms C12_astar_first_is_max
+#print axioms C12_int_link_posterior_le
+#print axioms C12_int_link_posterior_dec
